@@ -199,7 +199,10 @@ def check_case(c):
     else:
         sc = np.max(np.abs(expect), axis=0)
         e = np.max(np.abs(LJ - expect), axis=0)
-        if not np.all(e <= 1e-6 * sc + 1e-12 * np.max(sc)):
+        # same absolute floor as the derivative clause (1e-12 of the component's amplitude), carried through /errs and .B
+        amps = np.array([abs(params[nm.split("_")[0] + "_amp"].value) for nm in free])
+        gain = (1.0 / np.min(np.abs(errs)) if errs is not None else 1.0) * (float(np.max(np.sum(np.abs(B), axis=0))) if B is not None else 1.0)
+        if not np.all(e <= 1e-6 * sc + 1e-12 * np.max(sc) + 1e-12 * amps * gain):
             k = int(np.argmax(e / np.maximum(sc, 1e-300)))
             res.bad("lmfit-jacobian", "column %d (%s) of lmfit_jacobian differs from transpose(J/errs).B by %.3g of its "
                     "maximum (weight=%s)" % (k, free[k], e[k] / sc[k] if sc[k] else float("inf"), w), weight=w)
